@@ -3,6 +3,7 @@ import GrinVerif.Lemmas.CodecSafe
 import GrinVerif.Lemmas.CodecTimed
 import GrinVerif.Lemmas.CodecNonce
 import GrinVerif.Lemmas.CodecAttach
+import GrinVerif.Lemmas.CodecConn
 /-! # C19 — peer message framing is faithful under fragmentation and enforces size limits
 
 Model: `Model/Codec.lean` (the `Codec` state machine of `p2p/src/codec.rs` over a socket that is a
@@ -50,6 +51,13 @@ stated round-trip hypotheses (`SentWF`), in particular for the native bodies of 
   48 000-byte chunks with something left followed by exactly one update with `left = 0` (one empty update
   for size 0), they add up to the attachment, and the codec is back to reading a message header exactly
   after that last update — also when it is a full chunk;
+* `try_break_classes`, `refused_header_ends_stream` (+ `wrong_magic_ends_stream`,
+  `too_large_ends_stream`, `refused_header_ends_stream_timed`), `body_decode_error_ends_stream` — at
+  connection level: the reader loop of `conn::poll` follows `tryBreak` (`try_break!`): every error class
+  of the codec but a read timeout ends the stream.  A refused frame header ends it with NOTHING of the
+  announced body interpreted — whatever those bytes spell, e.g. complete valid frames — and a body that
+  does not decode (`CorruptedData` …) is consumed completely and ends it too (the code closes rather
+  than skips; pinned here and on the real `Peer`);
 * `codec_read_no_panic`, `codec_read_no_hang`, `codec_read_alloc_bound` — the C11 obligations of the
   state machine itself.
 
@@ -431,6 +439,116 @@ theorem refuse_too_large (env : Env B H) (t len : Nat) (h64 : len < 2^64) (hbig 
   obtain ⟨h1, h2, h3, _, h5⟩ := refuse_at_header env _ rest (encHeader_length _ _ _) _ _ hdec frags hfr
   exact ⟨h1, h2, h3, h5⟩
 
+/-! ## refusals at connection level (`conn::poll`, `try_break!`) -/
+
+/-- the classes of `codec.read()` results and what the reader loop does with them: a message is
+delivered, a read timeout is retried, every other error — `Serialization(UnexpectedData)`,
+`Serialization(TooLargeReadErr)`, `Serialization(CorruptedData)`, …, `BadMessage`, `UnexpectedMessage`,
+`Connection` — ends the stream -/
+theorem try_break_classes (m : Message B H) (e : SerErr) (st : Site) :
+    tryBreak (.msg m : Res B H) = .deliver ∧ tryBreak (.err .timedOut : Res B H) = .retry ∧
+    tryBreak (.err (.ser e) : Res B H) = .leave ∧ tryBreak (.err .badMessage : Res B H) = .leave ∧
+    tryBreak (.err .unexpectedMessage : Res B H) = .leave ∧ tryBreak (.err .conn : Res B H) = .leave ∧
+    tryBreak (.panic st : Res B H) = .leave :=
+  ⟨rfl, rfl, rfl, rfl, rfl, rfl, rfl⟩
+
+/-- the loops of the model are driven by `tryBreak` and by nothing else -/
+theorem loop_follows_try_break (env : Env B H) (attach : Message B H → Option Nat) (fuel : Nat) (c : Codec H)
+    (s : TStream) :
+    (tryBreak (readT env c s).res = .leave →
+      runT env attach (fuel + 1) c s = ([], (readT env c s).res, (readT env c s).codec, (readT env c s).sock)) ∧
+    (tryBreak (readT env c s).res = .retry →
+      runT env attach (fuel + 1) c s = runT env attach fuel (readT env c s).codec (readT env c s).sock) :=
+  ⟨runT_leave env attach fuel c s, runT_retry env attach fuel c s⟩
+
+/-- **a refused frame header ends the stream**: when `MsgHeaderWrapper::read` refuses the 11 header
+bytes, the reader loop delivers nothing, leaves with that error, and everything after the header —
+the announced "body", whatever it spells, and all later frames — is still unread on the socket: no
+hidden message is ever decoded, let alone answered.  Under every fragmentation. -/
+theorem refused_header_ends_stream (env : Env B H) (attach : Message B H → Option Nat) (hd rest : Bytes)
+    (hl : hd.length = 11) (e : SerErr) (a0 : Nat) (hdec : decHeader env.net hd = .err e a0)
+    (frags : List Bytes) (hfr : frags.flatten = hd ++ rest) (fuel : Nat) :
+    tryBreak (read env fragOps (idle : Codec H) frags).res = .leave ∧
+    (run env fragOps attach (fuel + 1) idle frags).1 = [] ∧
+    (run env fragOps attach (fuel + 1) idle frags).2.1 = .err (.ser e) ∧
+    (run env fragOps attach (fuel + 1) idle frags).2.2.1 = idle ∧
+    (run env fragOps attach (fuel + 1) idle frags).2.2.2.flatten = rest := by
+  obtain ⟨h1, _, _, h4, h5⟩ := refuse_at_header env hd rest hl e a0 hdec frags hfr
+  have hl' : tryBreak (read env fragOps (idle : Codec H) frags).res = .leave := by rw [h1]; rfl
+  have hne : tryBreak (read env fragOps (idle : Codec H) frags).res ≠ .deliver := by rw [hl']; decide
+  rw [run_leave env fragOps attach fuel idle frags hne]
+  exact ⟨hl', rfl, h1, h4, h5⟩
+
+/-- wrong network magic, followed by anything -/
+theorem wrong_magic_ends_stream (env : Env B H) (attach : Message B H → Option Nat) (b0 b1 : Nat)
+    (tail rest : Bytes) (ht : tail.length = 9) (hm : b0 ≠ env.net.magic.1 ∨ b1 ≠ env.net.magic.2)
+    (frags : List Bytes) (hfr : frags.flatten = (b0 :: b1 :: tail) ++ rest) (fuel : Nat) :
+    (run env fragOps attach (fuel + 1) (idle : Codec H) frags).1 = [] ∧
+    (run env fragOps attach (fuel + 1) (idle : Codec H) frags).2.1 = .err (.ser .unexpectedData) ∧
+    (run env fragOps attach (fuel + 1) (idle : Codec H) frags).2.2.2.flatten = rest := by
+  have hdec : decHeader env.net (b0 :: b1 :: tail) = .err .unexpectedData 0 := by
+    by_cases h0 : b0 = env.net.magic.1
+    · subst h0
+      exact decHeader_wrong_magic2 env.net b1 tail (by rcases hm with h | h; exact absurd rfl h; exact h)
+    · exact decHeader_wrong_magic1 env.net b0 (b1 :: tail) h0
+  obtain ⟨_, h1, h2, _, h4⟩ := refused_header_ends_stream env attach (b0 :: b1 :: tail) rest (by simp [ht]) _ _ hdec
+    frags hfr fuel
+  exact ⟨h1, h2, h4⟩
+
+/-- an announced length above the limit of its type, followed by anything (in particular by bytes that
+spell complete valid frames: e.g. a `Ping` header announcing 65 bytes) -/
+theorem too_large_ends_stream (env : Env B H) (attach : Message B H → Option Nat) (t len : Nat)
+    (h64 : len < 2^64) (hbig : len > maxLen env.net t) (rest : Bytes) (frags : List Bytes)
+    (hfr : frags.flatten = encHeader env.net t len ++ rest) (fuel : Nat) :
+    (run env fragOps attach (fuel + 1) (idle : Codec H) frags).1 = [] ∧
+    (run env fragOps attach (fuel + 1) (idle : Codec H) frags).2.1 = .err (.ser .tooLarge) ∧
+    (run env fragOps attach (fuel + 1) (idle : Codec H) frags).2.2.2.flatten = rest := by
+  have hdec : decHeader env.net (encHeader env.net t len) = .err .tooLarge 0 := by
+    have := decHeader_encHeader env.net t len h64 []
+    rw [List.append_nil] at this
+    rw [this, if_pos hbig]
+  obtain ⟨_, h1, h2, _, h4⟩ := refused_header_ends_stream env attach _ rest (encHeader_length _ _ _) _ _ hdec
+    frags hfr fuel
+  exact ⟨h1, h2, h4⟩
+
+example : (65 : Nat) > maxLen exEnv.net T_Ping := by decide
+
+/-- the same over the timed machine (the loop the `timed` / `peer` lines are compared with), when the 11
+header bytes arrive within the header timeout -/
+theorem refused_header_ends_stream_timed (env : Env B H) (attach : Message B H → Option Nat) (hd rest : Bytes)
+    (hl : hd.length = 11) (e : SerErr) (a0 : Nat) (hdec : decHeader env.net hd = .err e a0)
+    (ts : TStream) (hts : tbytes ts = hd ++ rest) (hb : WaitsBelow BODY_IO_TIMEOUT_MS ts)
+    (hh : WaitsBelow HEADER_IO_TIMEOUT_MS (ts.take 11)) (fuel : Nat) :
+    ∃ j, runT env attach (fuel + 1) (idle : Codec H) ts = ([], .err (.ser e), idle, ts.drop j) ∧
+      tbytes (ts.drop j) = rest := by
+  obtain ⟨j, e1, e2⟩ := readT_flat env (idle : Codec H) ts hb (fun _ => hh)
+  have hf : read env flatOps (idle : Codec H) (hd ++ rest) = _ :=
+    readLoop_header_err env 35 hd rest hl 0 0 e a0 hdec
+  rw [hts, hf] at e1 e2
+  have hleave : tryBreak (readT env (idle : Codec H) ts).res = .leave := by rw [e1]; rfl
+  refine ⟨j, ?_, e2.symm⟩
+  rw [runT_leave env attach fuel idle ts hleave, e1]
+
+/-- **a body that does not decode ends the stream too** (what the code does with a body-level error such as
+`CorruptedData`: the property would allow skipping exactly that message; `try_break!` closes): header and
+body are consumed completely — `bytes_read = 11 + msg_len` — nothing is delivered, the loop leaves with
+the decoder's error, the codec is idle and the frames after it are unread -/
+theorem body_decode_error_ends_stream (env : Env B H) (attach : Message B H → Option Nat) (t : Nat)
+    (raw rest : Bytes) (e : SerErr) (hd : isDispatched t = true) (hl : raw.length ≤ maxLen env.net t)
+    (h64 : raw.length < 2^64) (hb : env.decBody t raw = .error e)
+    (frags : List Bytes) (hfr : frags.flatten = encHeader env.net t raw.length ++ (raw ++ rest)) (fuel : Nat) :
+    (read env fragOps (idle : Codec H) frags).bytesRead = 11 + raw.length ∧
+    (run env fragOps attach (fuel + 1) idle frags).1 = [] ∧
+    (run env fragOps attach (fuel + 1) idle frags).2.1 = .err (.ser e) ∧
+    (run env fragOps attach (fuel + 1) idle frags).2.2.1 = idle ∧
+    (run env fragOps attach (fuel + 1) idle frags).2.2.2.flatten = rest := by
+  obtain ⟨a1, a2, _, a4, a5⟩ := read_sim env sim_frag_flat (idle : Codec H) frags _ hfr
+  rw [read_body_error_flat env t raw rest e hd hl h64 hb] at a1 a2 a4 a5
+  have hne : tryBreak (read env fragOps (idle : Codec H) frags).res ≠ .deliver := by
+    rw [a1]; intro h; cases h
+  rw [run_leave env fragOps attach fuel idle frags hne]
+  exact ⟨by rw [a2], rfl, a1, a4, a5⟩
+
 /-- the limit is the table's, e.g. a `Ping` may announce 64 bytes but not 65, on every network -/
 example : maxLen netMainnet T_Ping = 64 ∧ maxLen netAutomatedTesting T_Ping = 64 := by decide
 example : maxLen netMainnet 200 = 4 * (40000 / 21 * 708) := by decide
@@ -511,6 +629,23 @@ theorem headers_zero_count_refused (env : Env B H) (L : Nat) (hL : 2 ≤ L) (hma
   unfold GV.Codec.read
   rw [READ_FUEL_eq, e1, e2, e3, hnl]
   exact ⟨rfl, by simp, rfl⟩
+
+/-- **excess bytes inside `msg_len` after the last announced header are refused**: when the item that
+brings `items_left` to 0 has been decoded and `bytes_left` is still positive, the read returns
+`BadMessage` with the state reset — the batch it completed is not delivered — whatever the excess
+bytes are and however many of them the codec has already read ahead into its buffer -/
+theorem headers_excess_refused (env : Env B H) (bl : Nat) (hs : List H) (buffer rest : Bytes) (nl : Nat) (h : H)
+    (hdec : env.decItem buffer = .ok (h, rest)) (hbl : bl ≠ 0)
+    (hex : bl - (buffer.length - rest.length) > 0) :
+    stepState env ({ buffer := buffer, state := .blockHeaders bl 1 hs } : Codec H) nl =
+      .inl (.err .badMessage, { buffer := rest, state := .none }, min HEADER_BATCH_SIZE 0 * env.hdrMem) := by
+  have hil : (1 + USIZE_MOD - 1) % USIZE_MOD = 0 := by decide
+  simp only [stepState, hdec, hil]
+  simp [hbl, hex]
+
+/-- one announced one-byte item, two bytes of body: the second byte is excess -/
+example : stepState exEnv ({ buffer := [7, 9], state := .blockHeaders 2 1 [] } : Codec Nat) 2 =
+    .inl (.err .badMessage, { buffer := [9], state := .none }, 0) := by decide
 
 /-- a batch that *is* delivered carries `remaining = items_left − 1` with `items_left ≥ 1`: the
 `*items_left -= 1` of the code can no longer wrap -/
